@@ -52,7 +52,7 @@ def render_op(cid, phase, n, op):
     if k == 'exists':
         return ['exists %s-rel-%s %s' % ('! ' if op[3] else '', op[1], op[2])]
     if k == 'sleep':
-        return ['$ sleep 2']
+        return ['$ sleep 1.5']
     if k == 'hard':
         return ['$ exit 3']
     if k == 'valerr':
@@ -144,10 +144,17 @@ def _dedupe(ops_by_phase):
     """a case must not define a pool symbol / create a file twice itself (that would be its own validation / hard
     error in every run - legal, but uninformative): later duplicates are dropped"""
     seen = set()
+    has_timeout = any(op[0] == 'timeout' for ph in IPHASES for op in ops_by_phase.get(ph, []))
     for ph in IPHASES:
         keep = []
         for op in ops_by_phase.get(ph, []):
             key = None
+            if op[0] == 'sleep':
+                # a sleeping case keeps the default timeout (its own `timeout = 1` would make the outcome a race);
+                # one sleep per case
+                if has_timeout:
+                    continue
+                key = ('sleep',)
             if op[0] == 'def':
                 key = ('def', op[1])
             elif op[0] in ('file', 'dir'):
@@ -185,6 +192,14 @@ def _case(draw, cid, slow):
         pos = draw(st.integers(0, len(ops[ph])))
         ops[ph].insert(pos, [ending])
     _dedupe(ops)
+    # half of the symbol observers look at a symbol the case defined itself earlier (if any)
+    own = []
+    for ph in IPHASES:
+        for op in ops[ph]:
+            if op[0] == 'def':
+                own.append(op[1])
+            elif op[0] == 'use' and own and chance(draw, 1, 2):
+                op[1] = own[-1]
     act = {'kind': draw(w([('obs', 8), ('exit', 3), ('py', 1), ('none', 2)])), 'code': draw(st.sampled_from([0, 1, 3]))}
     return {'id': cid, 'conf': conf, 'ops': ops, 'act': act}
 
@@ -212,8 +227,8 @@ def _orders(draw, n, max_orders):
 
 @st.composite
 def histories(draw, tier='quick'):
-    slow = chance(draw, 1, 14 if tier == 'quick' else 8)  # timeout = 1 / sleep 2: costs seconds
-    n = draw(w([(2, 4), (3, 5), (4, 2), (5, 1)]))
+    slow = chance(draw, 1, 25 if tier == 'quick' else 10)  # timeout = 1 in one case, sleep 1.5 in another: costs seconds
+    n = draw(w([(2, 4), (3, 5), (4, 2), (5, 1)])) if not slow else draw(w([(2, 2), (3, 1)]))
     cases = [draw(_case('c%d' % i, slow)) for i in range(n)]
-    orders = _orders(draw, n, 6 if tier == 'quick' else 24)
+    orders = _orders(draw, n, 2 if slow else 6 if tier == 'quick' else 24)
     return {'cases': cases, 'orders': orders, 'split': draw(st.integers(1, n - 1)) if chance(draw, 1, 4) else 0}
